@@ -12,195 +12,124 @@ import (
 func init() {
 	register(&propDef{
 		id: "C37", run: runC37, minOblig: 14,
-		explanation: "Decides structural clauses of remote-forward listeners: (no blocking under the list lock) no method of forwardList performs a channel send/receive while its mutex is held — on the pinned tree forwardList.forward does (KNOWN FINDING: Listener.Close can hang); (registration key) each listener is registered with forwards.add(network, K) and its Close calls forwards.remove(network, K') where K' is the listener field that was initialised with the very value K, with the same network constant, and remove precedes the cancel request; (close semantics) remove and closeAll close the entry's channel and drop the entry, under the lock; both listeners' Accept return an error when the channel is closed (evaluated); (exact delivery) forward delivers exactly when network AND address are equal to an entry's (4 cases evaluated) and handleChannels rejects the channel when forward reports false, when the payload does not parse, or when the origin address/port is invalid; add appends under the lock a fresh 1-buffered channel. NOT decided: liveness in general.",
-		assumptions: []string{"a send on a full buffered channel blocks (Go semantics)"},
+		explanation: "Decides clauses of remote-forward listeners, independently of how the code is factored. (no blocking under the list lock) no function that takes the forwardList mutex performs a channel send/receive while it is held, in itself or in a helper it calls with the lock held — on the pinned tree forwardList.forward does (KNOWN FINDING: Listener.Close can hang); every access to forwardList.entries holds the lock (helpers inherit the locks of all their call sites). (registration key) each listener type is constructed from the value K passed to forwards.add(network, K) and the channel add returned, and its Close calls forwards.remove(network, K') where K' is the listener field initialised with that very K, with the same network constant (arguments resolved through helpers in the context of the call), and no path reaches the cancel request before remove. (list behaviour, by EVALUATION of the SSA bodies of add/forward/remove/closeAll on concrete histories of four registered listeners, nine requests, a duplicate key) add returns a fresh open empty channel with room; forward delivers exactly one value carrying the request's channel and remote address to the channel registered for exactly its network AND address and reports true, else delivers nothing and reports false; remove closes exactly that entry's channel while the list lock is held and drops exactly that entry (later forwards, a second remove, a later closeAll observed); closeAll closes every channel once under the lock and drops all; every call returns with the lock released. (Accept) evaluated on a closed channel, both listeners' Accept return a non-nil error without blocking or panicking. (reject) in handleChannels every channel taken from the peer is rejected or successfully forwarded before the next one is taken; a forward that reports false, a payload that does not parse and an invalid origin address/port lead to Reject before any delivery (paths followed through helpers, error returns folded); parseTCPAddr accepts ports 1..65535 only. NOT decided: liveness in general.",
+		assumptions: []string{"a send on a full buffered channel blocks (Go semantics)", "the evaluated histories are single-goroutine; mutual exclusion of concurrent calls is the lockset clause"},
 	})
-	tech("C37", "lockset analysis with blocking-operation detection, key-provenance agreement between registration and removal, finite-domain evaluation of the match predicate")
+	tech("C37", "lockset analysis with blocking-operation detection across helpers, key-provenance agreement between registration and removal resolved in call context, concrete evaluation of the forward list's methods and of Accept against an observational specification, interprocedural must-cross per received channel")
 }
 
 func runC37(c *Ctx) {
 	fns := c.funcsOfPkg("ssh")
-	// ---- (a) no blocking under the forwardList mutex
+	listT := c.namedType("ssh", "forwardList")
+	if listT == nil {
+		return
+	}
+	listSt, _ := listT.Underlying().(*types.Struct)
+	lockField := c37LockField(listSt)
+	if !c.check(lockField != "", "C37.lock", "forwardList mutex", nil, "the list carries its mutex (field "+lockField+")", "forwardList has no sync.Mutex / sync.RWMutex field: the lock rules cannot be evaluated") {
+		return
+	}
+	suffix := "." + lockField
+
+	// ---- (a) no blocking under the forwardList mutex: every method of the list
+	// and every other function that takes a forwardList's mutex
 	n := 0
 	for _, f := range fns {
-		if f.Signature.Recv() == nil || typeName(f.Signature.Recv().Type()) != "forwardList" {
+		isMethod := f.Signature.Recv() != nil && typeName(f.Signature.Recv().Type()) == "forwardList"
+		if !isMethod && !c37TakesListLock(f) {
 			continue
 		}
 		n++
-		bl := blockingUnder(f, ".Mutex")
+		bl := c37BlockingUnder(f, suffix)
 		if len(bl) == 0 {
 			c.ok("C37.no-block-under-lock", fnName(f), f, "no channel operation while the list mutex is held")
 			continue
 		}
-		c.fail("C37.no-block-under-lock", fnName(f), bl[0], "a channel send is performed while the forward list's mutex is held; with two un-accepted forwarded connections the sender blocks holding the lock and Listener.Close (which needs the lock in remove) never returns")
+		where := ""
+		if bl[0].Parent() != f {
+			where = " (in " + fnName(bl[0].Parent()) + ", called with the lock held)"
+		}
+		c.fail("C37.no-block-under-lock", fnName(f), bl[0], "a channel send is performed while the forward list's mutex is held"+where+"; with two un-accepted forwarded connections the sender blocks holding the lock and Listener.Close (which needs the lock in remove) never returns")
 	}
-	c.check(n >= 5, "C37.no-block-under-lock", "forwardList methods", nil, fmt.Sprintf("%d methods analysed", n), "forwardList methods not found")
+	c.check(n >= 1, "C37.no-block-under-lock", "forwardList methods", nil, fmt.Sprintf("%d functions analysed", n), "no function operating on forwardList found")
 	// entries / locking
-	for _, gs := range []guardSpec{{"forwardList", "entries", ".Mutex", false}} {
-		c.checkGuarded("C37.lock", fns, gs, nil)
-	}
+	c.checkGuarded("C37.lock", fns, guardSpec{"forwardList", "entries", suffix, false}, nil)
+
 	// ---- (b) registration key agreement
-	for _, spec := range []struct {
-		typ, field, network, closeFn string
-	}{
-		{"tcpListener", "addr", "tcp", "(*tcpListener).Close"},
-		{"unixListener", "socketPath", "unix", "(*unixListener).Close"},
-	} {
-		// constructor sites: Store into typ.field
-		okReg := false
-		var regAt ssa.Instruction
-		for _, f := range fns {
-			for _, st := range storesTo(f, spec.typ, spec.field) {
-				for _, ci := range callsNamed(f, "(*ssh.forwardList).add") {
-					net, _ := constString(ci.Common().Args[1])
-					if ci.Common().Args[2] == st.Val && net == spec.network {
-						// and the listener's channel is the one add returned
-						for _, st2 := range storesTo(f, spec.typ, "in") {
-							if stripConv(st2.Val) == callValue(ci) {
-								okReg = true
-								regAt = st
-							}
-						}
-					}
-				}
-			}
-		}
-		c.check(okReg, "C37.key-agreement", spec.typ+" registration", regAt, "registered under (\""+spec.network+"\", "+spec.field+") and reads from the channel add returned", "the listener is not registered under the value kept in its "+spec.field+" field (or does not read from the registered channel)")
-		cf := c.fn("ssh", spec.closeFn)
-		if cf == nil {
+	for _, spec := range []struct{ typ, network string }{{"tcpListener", "tcp"}, {"unixListener", "unix"}} {
+		keyField, regAt, why := c37Registration(c, fns, spec.typ, spec.network)
+		c.check(keyField >= 0, "C37.key-agreement", spec.typ+" registration", regAt, "constructed from the key registered under \""+spec.network+"\" and reads from the channel add returned", why)
+		closeName := "(*" + spec.typ + ").Close"
+		cf := c.fn("ssh", closeName)
+		if cf == nil || keyField < 0 {
 			continue
 		}
-		rm := callsNamed(cf, "(*ssh.forwardList).remove")
-		okRm := len(rm) == 1
-		if okRm {
-			net, _ := constString(rm[0].Common().Args[1])
-			_, fld, base, okf := fieldOf(rm[0].Common().Args[2])
-			okRm = net == spec.network && okf && fld == spec.field && base == ssa.Value(cf.Params[0])
-		}
-		c.check(okRm, "C37.key-agreement", spec.closeFn+" removal key", cf, "Close removes (\""+spec.network+"\", l."+spec.field+")", "Close does not remove the entry under the key it was registered with (\""+spec.network+"\", l."+spec.field+"); the entry stays, Accept blocks and another listener's entry may be removed")
-		sr := calls(cf, func(n string) bool { return strings.HasSuffix(n, ".SendRequest") })
-		c.check(len(rm) == 1 && len(sr) == 1 && precedes(rm[0], sr[0]), "C37.close-order", spec.closeFn, cf, "the entry is removed (channel closed) before the cancel request round-trip", "Close does not remove the entry before sending the cancel request")
-	}
-	// ---- close semantics
-	c37RemoveIdentity(c)
-	for _, name := range []string{"(*forwardList).remove", "(*forwardList).closeAll"} {
-		f := c.fn("ssh", name)
-		if f == nil {
-			continue
-		}
-		cl := calls(f, nameIs("builtin:close"))
-		st := storesTo(f, "forwardList", "entries")
-		li := computeLocks(f)
-		ok := len(cl) == 1 && len(st) >= 1
-		if ok {
-			_, fld, _, okf := fieldOf(cl[0].Common().Args[0])
-			ok = okf && fld == "c" && li.at(cl[0]).holds("", ".Mutex")
-		}
-		c.check(ok, "C37.close-entry", name, f, "closes the entry's channel and drops the entry under the lock", "the entry's channel is not closed / the entry not dropped under the lock")
-	}
-	if f := c.fn("ssh", "(*forwardList).remove"); f != nil {
-		// only the matching entry: close reachable iff both equal
-		c37Match(c, f, "C37.match", "(*forwardList).remove", func() ssa.Instruction {
-			for _, ci := range calls(f, nameIs("builtin:close")) {
-				return ci
+		fieldName := "?"
+		if T := c.namedType("ssh", spec.typ); T != nil {
+			if st, ok := T.Underlying().(*types.Struct); ok && keyField < st.NumFields() {
+				fieldName = st.Field(keyField).Name()
 			}
-			return nil
-		}())
-	}
-	for _, name := range []string{"(*tcpListener).Accept", "(*unixListener).Accept"} {
-		f := c.fn("ssh", name)
-		if f == nil {
-			continue
 		}
-		var okv *ssa.Extract
-		allInstrs(f, func(in ssa.Instruction) {
-			if ex, isE := in.(*ssa.Extract); isE && ex.Index == 1 {
-				if u, isU := ex.Tuple.(*ssa.UnOp); isU && u.Op == token.ARROW && u.CommaOk {
-					okv = ex
+		isRemove := nameIs("(*ssh.forwardList).remove")
+		rm := c37Sites(cf, isRemove)
+		okRm := len(rm) >= 1
+		for _, s := range rm {
+			args := s.call.Common().Args
+			if len(args) < 3 {
+				okRm = false
+				continue
+			}
+			net, _ := c37ConstString(args[1], s.ctx)
+			fld, okf := c37FieldLoad(args[2], s.ctx, cf, 0)
+			if net != spec.network || !okf || fld != keyField {
+				okRm = false
+			}
+		}
+		c.check(okRm, "C37.key-agreement", closeName+" removal key", cf, "Close removes (\""+spec.network+"\", l."+fieldName+")", "Close does not remove the entry under the key it was registered with (\""+spec.network+"\", l."+fieldName+"); the entry stays, Accept blocks and another listener's entry may be removed")
+		// no path reaches the cancel request before the entry was removed
+		isSend := func(n string) bool { return strings.HasSuffix(n, ".SendRequest") }
+		sr := c37Sites(cf, isSend)
+		orderAct := func(in ssa.Instruction) c37act {
+			if cc := callCommon(in); cc != nil {
+				if _, isCall := in.(*ssa.Call); isCall && isRemove(short(calleeName(cc))) {
+					return c37Stop
+				}
+				if isSend(short(calleeName(cc))) {
+					return c37Hit
 				}
 			}
-		})
-		good := okv != nil
-		if good {
-			e := newEnv()
-			e.bind(okv, 0)
-			e.solve(f)
-			for _, r := range returnsOf(f) {
-				if e.reach[r.Block()] && errNilness(r.Results[1], r.Block(), 0) != neverNil {
-					good = false
-				}
-			}
+			return c37Go
 		}
-		c.check(good, "C37.accept-after-close", name, f, "a closed forward channel makes Accept return an error", "Accept does not turn a closed channel into an error")
+		hit, _ := c37Walk(cf, nil, cf.Blocks[0], 0, nil, func(in ssa.Instruction) bool { return orderAct(in) != c37Go },
+			func(in ssa.Instruction, _ *c37ctx) c37act { return orderAct(in) })
+		c.check(len(rm) >= 1 && len(sr) >= 1 && hit == nil, "C37.close-order", closeName, cf, "the entry is removed (channel closed) before the cancel request round-trip", "Close does not remove the entry before sending the cancel request")
 	}
-	// ---- exact delivery
-	if f := c.fn("ssh", "(*forwardList).forward"); f != nil {
-		var snd ssa.Instruction
-		allInstrs(f, func(in ssa.Instruction) {
-			if s, ok := in.(*ssa.Send); ok {
-				snd = s
-			}
-		})
-		c37Match(c, f, "C37.match", "(*forwardList).forward", snd)
-		// true only after delivery
-		okRet := true
-		for _, r := range returnsOf(f) {
-			if b, isC := constBool(retVal(r, 0)); isC && b {
-				if snd == nil || !precedes(snd, r) {
-					okRet = false
-				}
-			} else if !isC {
-				okRet = false
-			}
-		}
-		c.check(okRet, "C37.match", "(*forwardList).forward result", f, "reports true only after delivering to the matching entry", "forward can report success without delivering")
+
+	// ---- the list's behaviour, evaluated
+	c37Scenarios(c)
+	for _, typ := range []string{"tcpListener", "unixListener"} {
+		c37Accept(c, typ)
 	}
+
+	// ---- exact delivery: what handleChannels does with the verdict
 	if f := c.fn("ssh", "(*forwardList).handleChannels"); f != nil {
-		fw := callsNamed(f, "(*ssh.forwardList).forward")
-		rej := calls(f, nameIs("invoke:(ssh.NewChannel).Reject"))
-		okRej := len(fw) == 1
-		if okRej {
-			_, no := successEdges(fw[0].(*ssa.Call), 0, isTrue)
-			okRej = len(no) > 0
-			for _, e := range no {
-				hit := false
-				for _, r := range rej {
-					if r.Block() == e.to() {
-						hit = true
-					}
-				}
-				if !hit {
-					okRej = false
-				}
-			}
-		}
-		c.check(okRej, "C37.reject", "handleChannels spurious forward", f, "a forwarded channel with no matching listener is rejected", "a forwarded channel for an address with no listener is not rejected")
-		// parse failures reject
-		for _, cn := range []string{"ssh.Unmarshal", "ssh.parseTCPAddr"} {
-			for i, ci := range callsNamed(f, cn) {
-				_, no := errSuccessEdges(ci.(*ssa.Call))
-				ok := len(no) > 0
-				for _, e := range no {
-					hit := false
-					for _, r := range rej {
-						if r.Block() == e.to() {
-							hit = true
-						}
-					}
-					if !hit {
-						ok = false
-					}
-				}
-				c.check(ok, "C37.reject", fmt.Sprintf("handleChannels %s#%d failure", cn, i), ci, "a malformed forwarded-channel payload is rejected", "a malformed forwarded-channel payload is not rejected")
-			}
-		}
-		c.check(len(fw) == 1 && len(rej) >= 4, "C37.reject", "handleChannels reject sites", f, fmt.Sprintf("%d reject sites", len(rej)), fmt.Sprintf("only %d reject sites", len(rej)))
+		c37Reject(c, f)
 	}
 	if f := c.fn("ssh", "parseTCPAddr"); f != nil {
 		bad := ""
+		pi := -1
+		for i, p := range f.Params {
+			if b, ok := p.Type().Underlying().(*types.Basic); ok && b.Info()&types.IsInteger != 0 {
+				pi = i
+			}
+		}
 		for _, p := range []int64{0, 1, 65535, 65536, 1<<32 - 1} {
+			if pi < 0 {
+				bad = "no integer (port) parameter"
+				break
+			}
 			e := newEnv()
-			e.bind(f.Params[1], p)
+			e.bind(f.Params[pi], p)
 			e.solve(f)
 			got := false
 			for _, t := range acceptReturns(f, 1) {
@@ -214,80 +143,375 @@ func runC37(c *Ctx) {
 		}
 		c.check(bad == "", "C37.reject", "parseTCPAddr port range", f, "origin ports outside 1..65535 are rejected", bad)
 	}
-	if f := c.fn("ssh", "(*forwardList).add"); f != nil {
-		var mk *ssa.MakeChan
-		allInstrs(f, func(in ssa.Instruction) {
-			if m, ok := in.(*ssa.MakeChan); ok {
-				mk = m
-			}
-		})
-		ok := mk != nil
-		if ok {
-			k, okk := constInt(mk.Size)
-			ok = okk && k >= 1
-		}
-		c.check(ok, "C37.add", "(*forwardList).add", f, "a fresh buffered channel per registration", "add does not create a fresh buffered channel")
-	}
-	_ = types.Typ
 }
 
-// c37Match: target reachable exactly when both string comparisons (network, addr) are equal.
-func c37Match(c *Ctx, f *ssa.Function, rule, name string, target ssa.Instruction) {
-	var cmps []*ssa.BinOp
+// c37TakesListLock: f acquires the mutex of a forwardList.
+func c37TakesListLock(f *ssa.Function) bool {
+	found := false
 	allInstrs(f, func(in ssa.Instruction) {
-		bo, ok := in.(*ssa.BinOp)
-		if !ok || (bo.Op != token.EQL && bo.Op != token.NEQ) {
+		if _, d := lockOp(in); d <= 0 {
 			return
 		}
-		if b, ok := bo.X.Type().Underlying().(*types.Basic); !ok || b.Info()&types.IsString == 0 {
+		cc := callCommon(in)
+		if cc == nil || len(cc.Args) == 0 {
 			return
 		}
-		_, fx, _, okx := fieldOf(bo.X)
-		_, fy, _, oky := fieldOf(bo.Y)
-		_, px := bo.X.(*ssa.Parameter)
-		_, py := bo.Y.(*ssa.Parameter)
-		if (okx && py && (fx == "network" || fx == "addr")) || (oky && px && (fy == "network" || fy == "addr")) {
-			cmps = append(cmps, bo)
+		if fa, ok := cc.Args[0].(*ssa.FieldAddr); ok && typeName(fa.X.Type()) == "forwardList" {
+			found = true
 		}
 	})
-	if target == nil || len(cmps) != 2 {
-		c.fail(rule, name, f, fmt.Sprintf("anchors not found: delivery/close instruction=%v, %d comparisons of (network, addr) with the parameters (want 2)", target != nil, len(cmps)))
-		return
+	return found
+}
+
+// c37Registration: somewhere in the package a call forwards.add(network, K)
+// exists such that a listener of type typ is built with K in one field and the
+// channel add returned in another field of the same object. The add call and
+// the construction may lie in the same function or in helpers (a constructor,
+// a registration wrapper) of a common root: every value is resolved to the
+// root's context through the calls actually made, so a helper may have any
+// number of call sites. Returns the index of the field that keeps K.
+func c37Registration(c *Ctx, fns []*ssa.Function, typ, network string) (int, ssa.Instruction, string) {
+	isAdd := nameIs("(*ssh.forwardList).add")
+	isAddCall := func(in ssa.Instruction) bool {
+		call, ok := in.(*ssa.Call)
+		return ok && isAdd(short(calleeName(&call.Call)))
 	}
-	// the two comparisons cover both fields, each against the like-named parameter
-	fields := map[string]bool{}
-	for _, bo := range cmps {
-		for _, pr := range [][2]ssa.Value{{bo.X, bo.Y}, {bo.Y, bo.X}} {
-			if _, fld, _, ok := fieldOf(pr[0]); ok {
-				if p, ok := pr[1].(*ssa.Parameter); ok {
-					want := map[string]string{"network": "n", "addr": "addr"}[fld]
-					if p.Name() == want {
-						fields[fld] = true
+	isTypStore := func(in ssa.Instruction) bool {
+		st, ok := in.(*ssa.Store)
+		if !ok {
+			return false
+		}
+		fa, ok := st.Addr.(*ssa.FieldAddr)
+		return ok && derefStruct(fa.X.Type()) != nil && typeName(fa.X.Type()) == typ
+	}
+	// roots: the functions that call add, and their static callers (two levels)
+	roots := map[*ssa.Function]bool{}
+	var order []*ssa.Function
+	var up func(f *ssa.Function, d int)
+	up = func(f *ssa.Function, d int) {
+		if !roots[f] {
+			roots[f] = true
+			order = append(order, f)
+		}
+		if d >= 2 {
+			return
+		}
+		for _, ci := range c.callersOf(f) {
+			if _, isCall := ci.(*ssa.Call); isCall && ci.Parent() != nil && ci.Parent().Pkg == f.Pkg {
+				up(ci.Parent(), d+1)
+			}
+		}
+	}
+	anyStore := false
+	for _, f := range fns {
+		hasAdd := false
+		allInstrs(f, func(in ssa.Instruction) {
+			if isAddCall(in) {
+				hasAdd = true
+			}
+			if isTypStore(in) {
+				anyStore = true
+			}
+		})
+		if hasAdd {
+			up(f, 0)
+		}
+	}
+	if !anyStore {
+		return -1, nil, "no construction of " + typ + " found"
+	}
+	why := "no forwards.add(\"" + network + "\", K) whose K and result are both kept in a " + typ
+	var at ssa.Instruction
+	for _, root := range order {
+		adds := c37Instrs(root, isAddCall)
+		if len(adds) == 0 {
+			continue
+		}
+		stores := c37Instrs(root, isTypStore)
+		if len(stores) == 0 {
+			continue
+		}
+		type fstore struct {
+			st    *ssa.Store
+			field int
+			obj   ssa.Value
+			val   ssa.Value
+			ctx   *c37ctx
+		}
+		var sts []fstore
+		for _, s := range stores {
+			st := s.in.(*ssa.Store)
+			fa := st.Addr.(*ssa.FieldAddr)
+			v, vc := s.ctx.resolve(stripConv(st.Val))
+			o, _ := s.ctx.resolve(fa.X)
+			sts = append(sts, fstore{st, fa.Field, o, stripConv(v), vc})
+		}
+		for _, a := range adds {
+			call := a.in.(*ssa.Call)
+			args := call.Call.Args
+			if len(args) < 3 {
+				continue
+			}
+			if net, _ := c37ConstString(args[1], a.ctx); net != network {
+				continue
+			}
+			key, kc := a.ctx.resolve(stripConv(args[2]))
+			key = stripConv(key)
+			res, rc := c37Up(call, a.ctx)
+			if at == nil {
+				at = call
+			}
+			for _, sk := range sts {
+				if sk.val != key || sk.ctx.key() != kc.key() {
+					continue
+				}
+				at = sk.st
+				for _, sc := range sts {
+					if sc.obj == sk.obj && sc.field != sk.field && sc.val == res && sc.ctx.key() == rc.key() {
+						return sk.field, sk.st, ""
 					}
 				}
+				why = "the listener registered under \"" + network + "\" does not read from the channel add returned"
 			}
 		}
 	}
-	bad := ""
-	for a := int64(0); a < 2; a++ {
-		for b := int64(0); b < 2; b++ {
-			e := newEnv()
-			for i, bo := range cmps {
-				v := []int64{a, b}[i]
-				if bo.Op == token.NEQ {
-					v = 1 - v
+	return -1, at, why + " (the listener is not registered under the value kept in its key field, or does not read from the registered channel)"
+}
+
+// c37Reject: handleChannels. Every channel taken from the peer is, before the
+// next one is taken (or the function returns), either rejected or handed to
+// forward with result true; and after a forward that reported false, a payload
+// that failed to parse, or an origin address that failed to parse, the channel
+// is rejected before anything else happens to it. All paths run through the
+// helpers of the package expanded in place.
+func c37Reject(c *Ctx, f *ssa.Function) {
+	isNewChan := func(t types.Type) bool {
+		ct, ok := t.Underlying().(*types.Chan)
+		return ok && typeName(ct.Elem()) == "NewChannel"
+	}
+	isTake := func(in ssa.Instruction) bool {
+		switch x := in.(type) {
+		case *ssa.UnOp:
+			return x.Op == token.ARROW && isNewChan(x.X.Type())
+		case *ssa.Select:
+			for _, st := range x.States {
+				if st.Dir == types.RecvOnly && isNewChan(st.Chan.Type()) {
+					return true
 				}
-				e.bind(bo, v)
-			}
-			cut := e.cuts(f)
-			got := reachAfter(cmps[0], cut)[target.Block()] || cmps[0].Block() == target.Block()
-			if !precedes(cmps[0], cmps[1]) {
-				got = reachAfter(cmps[1], cut)[target.Block()]
-			}
-			if got != (a == 1 && b == 1) {
-				bad = fmt.Sprintf("network equal=%d address equal=%d: entry selected=%v", a, b, got)
 			}
 		}
+		return false
 	}
-	c.check(bad == "" && fields["network"] && fields["addr"], rule, name, target, "an entry is selected exactly when both network and address are equal to the request's", bad+fmt.Sprintf(" (fields compared with the like-named parameter: %v)", fields))
+	isReject := func(in ssa.Instruction) bool {
+		cc := callCommon(in)
+		if cc == nil {
+			return false
+		}
+		if _, isCall := in.(*ssa.Call); !isCall {
+			return false
+		}
+		return cc.IsInvoke() && cc.Method.Name() == "Reject" && typeName(cc.Value.Type()) == "NewChannel"
+	}
+	// where channels are taken
+	type take struct {
+		in  ssa.Instruction
+		ctx *c37ctx
+	}
+	isForward := nameIs("(*ssh.forwardList).forward")
+	isForwardCall := func(in ssa.Instruction) bool {
+		cc := callCommon(in)
+		return cc != nil && isForward(short(calleeName(cc)))
+	}
+	interesting := func(in ssa.Instruction) bool { return isTake(in) || isReject(in) || isForwardCall(in) }
+	var takes []take
+	seenTake := map[ssa.Instruction]bool{}
+	c37Walk(f, nil, f.Blocks[0], 0, nil, interesting, func(in ssa.Instruction, ctx *c37ctx) c37act {
+		if isTake(in) && !seenTake[in] {
+			seenTake[in] = true
+			takes = append(takes, take{in, ctx})
+		}
+		return c37Go
+	})
+	// forward calls and the edges on which they reported true / false
+	fw := c37Sites(f, isForward)
+	pass := edgeSet{}
+	var fwFalse []c37start
+	for _, s := range fw {
+		call, ok := s.call.(*ssa.Call)
+		if !ok {
+			continue
+		}
+		pass.addAll(c37ResultEdges(call, s.ctx, 0, isTrue, &fwFalse))
+	}
+	endOfTurn := func(in ssa.Instruction, ctx *c37ctx) bool {
+		if isTake(in) {
+			return true
+		}
+		_, isRet := in.(*ssa.Return)
+		return isRet && ctx.call == nil
+	}
+	// (1) forward reported false -> Reject before the next channel
+	okSpur := len(fw) >= 1 && len(fwFalse) > 0
+	var spurAt poser = f
+	for _, s := range fwFalse {
+		hit, _ := c37Walk(f, s.ctx, s.e.to(), 0, pass, interesting, func(in ssa.Instruction, ctx *c37ctx) c37act {
+			if isReject(in) {
+				return c37Stop
+			}
+			if endOfTurn(in, ctx) {
+				return c37Hit
+			}
+			return c37Go
+		})
+		if hit != nil {
+			okSpur = false
+			spurAt = fw[0].call
+		}
+	}
+	if len(fw) >= 1 && okSpur {
+		spurAt = fw[0].call
+	}
+	c.check(okSpur, "C37.reject", "handleChannels spurious forward", spurAt, "a forwarded channel with no matching listener is rejected", "a forwarded channel for an address with no listener is not rejected")
+	// (2) parse failures -> Reject before the next channel and before any delivery
+	nParse := 0
+	for _, cn := range []string{"ssh.Unmarshal", "ssh.parseTCPAddr"} {
+		for i, s := range c37Sites(f, nameIs(cn)) {
+			call, ok := s.call.(*ssa.Call)
+			if !ok {
+				continue
+			}
+			nParse++
+			var fails []c37start
+			c37ResultEdges(call, s.ctx, call.Call.Signature().Results().Len()-1, isNil, &fails)
+			ok = len(fails) > 0
+			for _, st := range fails {
+				hit, _ := c37Walk(f, st.ctx, st.e.to(), 0, nil, interesting, func(in ssa.Instruction, ctx *c37ctx) c37act {
+					if isReject(in) {
+						return c37Stop
+					}
+					if isForwardCall(in) {
+						return c37Hit
+					}
+					if endOfTurn(in, ctx) {
+						return c37Hit
+					}
+					return c37Go
+				})
+				if hit != nil {
+					ok = false
+				}
+			}
+			c.check(ok, "C37.reject", fmt.Sprintf("handleChannels %s#%d failure", cn, i), call, "a malformed forwarded-channel payload is rejected", "a malformed forwarded-channel payload is not rejected")
+		}
+	}
+	// (3) the whole turn: taken -> rejected or delivered
+	okTurn := len(takes) >= 1 && len(fw) >= 1 && nParse >= 2
+	var turnAt poser = f
+	detail := fmt.Sprintf("channel receive sites=%d, forward calls=%d, payload/origin parse calls=%d (anchors not found)", len(takes), len(fw), nParse)
+	for _, t := range takes {
+		// the channel is closed: the loop ends, nothing was taken
+		cut := edgeSet{}
+		for e := range pass {
+			cut[e] = true
+		}
+		if u, ok := t.in.(*ssa.UnOp); ok && u.CommaOk {
+			for _, r := range *u.Referrers() {
+				if ex, ok := r.(*ssa.Extract); ok && ex.Index == 1 {
+					_, no := boolEdges(ex, true)
+					cut.addAll(no)
+				}
+			}
+		}
+		hit, _ := c37Walk(f, t.ctx, t.in.Block(), instrIndex(t.in)+1, cut, interesting, func(in ssa.Instruction, ctx *c37ctx) c37act {
+			if isReject(in) {
+				return c37Stop
+			}
+			if endOfTurn(in, ctx) {
+				return c37Hit
+			}
+			return c37Go
+		})
+		if hit != nil {
+			okTurn = false
+			turnAt = hit
+			detail = "a channel taken from the peer can reach the next receive (or the end of the handler) neither rejected nor delivered: the peer's channel open is never answered"
+		}
+	}
+	c.check(okTurn, "C37.reject", "handleChannels every channel answered", turnAt, fmt.Sprintf("every channel taken is rejected or delivered before the next is taken (%d receive site(s), %d forward call(s))", len(takes), len(fw)), detail)
+}
+
+type c37start struct {
+	e   edge
+	ctx *c37ctx
+}
+
+// c37ResultEdges: the edges taken exactly when P holds for result number idx of
+// call (which lies in ctx); the edges taken when it does not are appended to
+// *neg together with the context they lie in. When the function of the call
+// does not branch on the result but returns it to its caller, the caller's
+// branches on the helper's result are used instead — the positive ones only
+// when every other return of the helper yields a value for which P cannot
+// hold (a constant false, a definitely non-nil error).
+func c37ResultEdges(call *ssa.Call, ctx *c37ctx, idx int, k predKind, neg *[]c37start) (yes []edge) {
+	sound := true
+	for depth := 0; depth <= c37Depth && call != nil && idx >= 0; depth++ {
+		vals := resultN(call, idx)
+		found := false
+		for _, v := range vals {
+			y, n := edgesWhere(v, k)
+			if len(y)+len(n) > 0 {
+				found = true
+			}
+			if sound {
+				yes = append(yes, y...)
+			}
+			for _, e := range n {
+				*neg = append(*neg, c37start{e, ctx})
+			}
+		}
+		if found || ctx == nil || ctx.call == nil {
+			return yes
+		}
+		// returned to the caller?
+		g := call.Parent()
+		isVal := func(res ssa.Value) bool {
+			for _, v := range vals {
+				if res == v {
+					return true
+				}
+			}
+			return false
+		}
+		j := -1
+		for _, r := range returnsOf(g) {
+			for ri, res := range r.Results {
+				if isVal(res) {
+					j = ri
+				}
+			}
+		}
+		if j < 0 {
+			return yes
+		}
+		for _, r := range returnsOf(g) {
+			res := r.Results[j]
+			if isVal(res) {
+				continue
+			}
+			switch k {
+			case isTrue:
+				if b, isC := constBool(res); !isC || b {
+					sound = false
+				}
+			case isNil:
+				if errNilness(res, r.Block(), 0) != neverNil {
+					sound = false
+				}
+			default:
+				sound = false
+			}
+		}
+		call, ctx, idx = ctx.call, ctx.parent, j
+	}
+	return yes
 }
